@@ -80,6 +80,11 @@ def build_cluster(cluster_spec):
     return WorkerPools(pools), info
 
 
+def runtime_of(r):
+    """Whole milliseconds are written in milliseconds: durations are quantities, not numerals (C16)."""
+    return EventTime(r // 1000, EventTime.Unit.MS) if r >= 1000 and r % 1000 == 0 else T(r)
+
+
 def build_profile(pspec):
     strategies = ExecutionStrategies()
     for s in pspec["strategies"]:
@@ -87,7 +92,7 @@ def build_profile(pspec):
             ExecutionStrategy(
                 resources=Resources(resource_vector={Resource(name=t, _id="any"): q for t, q in s["resources"].items()}),
                 batch_size=s.get("batch", 1),
-                runtime=T(s["runtime"]),
+                runtime=runtime_of(s["runtime"]),
             )
         )
     loading = ExecutionStrategies()
